@@ -874,6 +874,50 @@ async fn one_config(a: Args, idx: usize, proto: Proto, transport: Transport) -> 
     }
     let (mut seen_c, mut seen_s) = (0usize, 0usize);
 
+    // ---------------- part D (opened first, judged last): peers that begin a handshake and then say nothing more, held
+    // open until every handshake timer of client and server has fired (the client gives a local handshake 30 s)
+    let stalled_since = tokio::time::Instant::now();
+    let mut stalled: Vec<tokio::net::TcpStream> = Vec::new();
+    {
+        use tokio::io::AsyncWriteExt;
+        let local: Vec<Vec<u8>> = vec![
+            vec![],
+            vec![5],
+            vec![5, 1],
+            vec![5, 1, 0, 5, 1, 0, 3, 9, b'l', b'o'],
+            vec![5, 1, 0, 5, 1, 0, 1, 127, 0],
+            b"G".to_vec(),
+            b"GET http://localhost:80/ HTTP/1.1\r\nHost: loc".to_vec(),
+            b"GET http://localhost:80/ HTTP/1.1\r\nHost: localhost\r\n".to_vec(),
+            b"CONNECT localhost:80 HTTP/1.1\r\n".to_vec(),
+            b"CONNECT localhost:80 HTTP/1.1\r\nHost: localhost:80\r\n\r".to_vec(),
+            vec![4, 1, 0, 80],
+        ];
+        for w in local {
+            if let Ok(mut c) = tokio::net::TcpStream::connect(("127.0.0.1", d.client_port)).await {
+                let _ = c.set_nodelay(true);
+                let _ = c.write_all(&w).await;
+                stalled.push(c);
+                rep.evaluations += 1;
+                rep.mon("stalled-handshakes-held-until-the-timers-fire:local-application", 1);
+            }
+        }
+        // towards the server (raw TCP to the listening port: a TLS / WebSocket / protocol handshake that never goes on)
+        if !matches!(transport, Transport::Quic) {
+            let mut c0 = RefClient::new(&cfg, &Addr::V4([127, 0, 0, 1], target.port), &mut rng, now_s(), ClientOpts::default());
+            let first = c0.write(b"never finished", &mut rng);
+            let server_side: Vec<Vec<u8>> = vec![vec![], vec![0x16, 3, 1], b"GET /ws HTTP/1.1\r\nHost: localhost\r\nUpgrade: websocket\r\n".to_vec(), first[..first.len().min(10)].to_vec(), first[..first.len() / 2].to_vec()];
+            for w in server_side {
+                if let Ok(mut c) = tokio::net::TcpStream::connect(("127.0.0.1", d.server_port)).await {
+                    let _ = c.write_all(&w).await;
+                    stalled.push(c);
+                    rep.evaluations += 1;
+                    rep.mon("stalled-handshakes-held-until-the-timers-fire:server-peer", 1);
+                }
+            }
+        }
+    }
+
     // ---------------- part A: hostile streams to the server
     let now = now_s();
     let mut wires: Vec<(String, Vec<u8>)> = Vec::new();
@@ -1206,6 +1250,25 @@ async fn one_config(a: Args, idx: usize, proto: Proto, transport: Transport) -> 
     if idx == 0 {
         rep.sample(json!({"config": cfgname, "part_a": {"hostile_streams": wires.len(), "classes": wires.iter().map(|w| w.0.split(':').next().unwrap_or("").to_string()).collect::<std::collections::BTreeSet<_>>()}, "part_b": "hostile reference server: close / reset / silence / random / bit-flipped, truncated, garbage-continued and authenticated-malformed answers; malformed datagram frames and datagrams", "monitors": "panic recorder of osv-node, liveness, canary flow and datagram after each part"}));
     }
+    // ---------------- part D, judged: the stalled handshakes have been held for longer than any handshake timer
+    {
+        let held = stalled_since.elapsed();
+        if held < Duration::from_secs(33) {
+            tokio::time::sleep(Duration::from_secs(33) - held).await;
+        }
+        rep.mon("seconds_the_stalled_handshakes_were_held", stalled_since.elapsed().as_secs());
+        report_node(&mut rep, &cfgname, "timing-out-peers-that-stall-mid-handshake", "client", &mut pair.client, &mut seen_c, &d, a.seed);
+        report_node(&mut rep, &cfgname, "timing-out-peers-that-stall-mid-handshake", "server", &mut pair.server, &mut seen_s, &d, a.seed);
+        let r = run_batch(reg.clone(), &d, target.port, vec![spec(base + 6, LocalKind::Socks5V4)], 1, Duration::from_secs(15)).await;
+        if let Some((_, v)) = r.iter().find(|(_, v)| v.symptom.is_some()) {
+            let r2 = run_batch(reg.clone(), &d, target.port, vec![spec(base + 7, LocalKind::HttpConnect)], 1, Duration::from_secs(15)).await;
+            if r2.iter().any(|(_, v)| v.symptom.is_some()) {
+                rep.violation(format!("C07|nodes|client|{}|no-service-after-stalled-handshakes", cfgname), format!("{cfgname}: after stalled handshakes timed out a fresh flow is not relayed: {}", v.symptom.clone().unwrap_or_default()), json!({"seed": a.seed, "deploy": d.describe()}));
+            }
+        }
+        rep.case(&(idx, "stalled-handshakes"), !stalled.is_empty());
+        drop(stalled);
+    }
     if let Some(g) = &greeter {
         g.1.abort();
     }
@@ -1233,7 +1296,7 @@ pub async fn run(a: &Args) -> Report {
         m.push((Proto::Trojan, Transport::Tls));
         m.push((Proto::Vmess(3), ALL_TRANSPORTS[(a.seed as usize + 2) % 5]));
     }
-    let sem = Arc::new(tokio::sync::Semaphore::new(if a.thorough { 6 } else { 6 }));
+    let sem = Arc::new(tokio::sync::Semaphore::new(if a.thorough { 8 } else { 6 }));
     let mut hs = Vec::new();
     for (idx, (p, t)) in m.into_iter().enumerate() {
         let a = a.clone();
